@@ -206,7 +206,11 @@ def run_cfg(ctx, p, cfg):
                             fld = ya[2]
         r.require(fld is not None, "text-compared-with-the-remembered-one", fn=f, detail="the text read is compared with self.%s" % fld)
         if fld is not None:
-            sts = [(b, i, st) for b, i, st in f.assigns() if st["lhs"]["l"] == 1 and any(isinstance(e_, dict) and e_.get("f") == fld for e_ in st["lhs"]["p"])]
+            def is_self(l_):
+                e_ = deep_strip(f.local_expr(l_))
+                alts_ = [a_ for a_ in (e_[1] if e_[0] == "phi" else (e_,)) if a_[0] != "partial"]     # stores through the reborrow are not values of it
+                return l_ == 1 or (bool(alts_) and all(deep_strip(a_) in (("param", 1), ("deref", ("param", 1))) for a_ in alts_))
+            sts = [(b, i, st) for b, i, st in f.assigns() if any(isinstance(e_, dict) and e_.get("f") == fld for e_ in st["lhs"]["p"]) and is_self(st["lhs"]["l"])]
             good = [(b, i, st) for b, i, st in sts if is_read(f._rvalue(st["rv"], frozenset(), 30, b))]
             r.require(bool(good) and len(good) == len(sts), "remembered-text-is-what-was-read", fn=f, detail="assignments to self.%s: %d, all from the text just read" % (fld, len(sts)),
                       fail_detail="self.%s is %s: the comparison that detects a changed file runs against a stale text" % (fld, "never updated from the text read" if not good else "also assigned from something else"))
